@@ -121,13 +121,13 @@ var raBodies = []string{"newa\nnewb\n", "a+b$\n", "say \"hi\"\n", "back\\\\slash
 	"##!> assemble\n  a\n  ##!=>\n  b\n##!<\n", "$1\n${2}\n", "^anchored$\n", "price\\$\n"}
 
 type updateCase struct {
-	file     *genRulesFile
-	ruleIdx  int
-	chainK   int
-	arg      string
-	raName   string
-	raBody   string
-	decoy    *genRulesFile
+	file    *genRulesFile
+	ruleIdx int
+	chainK  int
+	arg     string
+	raName  string
+	raBody  string
+	decoy   *genRulesFile
 }
 
 func suiteUpdateCLI(env *Env, res *Result) {
@@ -243,7 +243,7 @@ func suiteUpdateCLI(env *Env, res *Result) {
 			if o.upd.Exit == 0 {
 				// read back
 				corr = append(corr, CorrCase{Fields: []string{"read_current", hx(o.after), hx(idForModel), strconv.Itoa(c.chainK), hx(o.gen.Stdout)},
-					Impl: map[bool]string{true: "UNCHANGED", false: "CHANGED"}[strings.Contains(o.cmp.Stdout, "has not changed")],
+					Impl:  map[bool]string{true: "UNCHANGED", false: "CHANGED"}[strings.Contains(o.cmp.Stdout, "has not changed")],
 					Human: fmt.Sprintf("compare %s after update", c.arg), Class: "compare"})
 			}
 		}
